@@ -42,8 +42,9 @@ git diff --stat | tee -a "$LOG"
 say "== 3. test suite with the change"
 # a few existing tests use fixed /tmp paths and collide with other jobs running the same suite:
 # a failing run is repeated (up to 3 runs); only a suite that fails every time counts as failing
-for attempt in 1 2 3; do
-  timeout 3600 cargo test --workspace --no-fail-fast --offline >"$D/confirm-tests.log" 2>&1; rc=$?
+for attempt in 1 2 3 4; do
+  # one suite at a time across all confirmations (the fixed /tmp names collide otherwise)
+  flock /tmp/ragc-suite.lock timeout 3600 cargo test --workspace --no-fail-fast --offline >"$D/confirm-tests.log" 2>&1; rc=$?
   [ $rc -eq 0 ] && break
   say "   (suite run $attempt failed: $(grep -E '^test .* FAILED' "$D/confirm-tests.log" | head -3 | tr '\n' ' '))"
 done
